@@ -155,8 +155,36 @@ def rule_closure(ctx, eff):
                 if out is not None and (rej or must):
                     where = out.node
         ctx.check("C15.6", not probs, m, where, f"electrical_signal.{meth}: threshold length", "equal lengths or a one-element threshold; anything else -> ValueError (4 length classes)", "; ".join(probs[:2]))
-    for q in ("devices.PRBS", "ppm.PPM_ENCODER", "ppm.PPM_DECODER", "ppm.HDD", "ppm.SDD"):
+    for q, setup in (("devices.PRBS", dict(param_values={"order": Form.num(7)}, assumptions={"seed": "notnone", "len": "notnone"})),
+                     ("ppm.PPM_ENCODER", dict(param_classes={"input": "binary_sequence"}, param_values={"M": Form.num(4)})),
+                     ("ppm.PPM_DECODER", dict(param_classes={"input": "binary_sequence"}, param_values={"M": Form.num(4)})),
+                     ("ppm.HDD", dict(param_classes={"input": "binary_sequence"}, param_values={"M": Form.num(4)})),
+                     ("ppm.SDD", dict(param_classes={"input": "electrical_signal"}, param_values={"M": Form.num(4)}, assumptions={"input.noise": "none"}))):
         f = pkg.func(q)
+        # by interpretation first: whatever the spelling (helper that stamps the time, conditional expression, tuple), every
+        # returned sequence is an object built by the validating constructor
+        itq = Interp(pkg, **setup)
+        try:
+            outs_q = itq.run(f)
+        except Exception:
+            outs_q = []
+        vals = []
+        for o in outs_q:
+            if o.kind == "return":
+                v_ = o.value
+                alts = [v_]
+                a_ = v_.single_atom() if isinstance(v_, Form) else None
+                if a_ is not None and a_[0] == "fn" and a_[1] == "ifexp" and len(a_[2]) == 3:
+                    alts = [a_[2][1], a_[2][2]]
+                for x_ in alts:
+                    vals.append(x_.items[0] if isinstance(x_, TupleV) and x_.items else x_)
+        raw = [x for x in itq.store_log if x[5] == 0 and x[2][0] == "attr" and x[2][2] == "data" and any(x[2][1] is v_ for v_ in vals)]
+        if raw:
+            ctx.violation("C15.2", f, raw[0][1], f"{q}: `{src_of(raw[0][1])[:80]}`", "the data of the returned sequence is replaced after construction: the 0/1 validation of the constructor is bypassed")
+            continue
+        if vals and all(isinstance(x_, ObjV) and x_.cls == "binary_sequence" for x_ in vals):
+            ctx.holds("C15.2", f, f.node, f"{q} returns binary_sequence(...)", f"validating constructor (all {len(vals)} returned values are constructed binary_sequence objects)")
+            continue
         rets = [n for n in body_nodes(f) if isinstance(n, ast.Return) and n.value is not None]
         ok = True
         for r in rets:
